@@ -53,6 +53,10 @@ Enc(m, tag) ==
   \cup {<<Ref("I" \o tag, <<>>), <<Interface("B" \o tag, <<>>, p[1]),
                                    InterfaceX("I" \o tag, <<Ref("Pick", <<Ref("B" \o tag, <<>>), UnionT(<<LitT("str", "a"), LitT("str", "b"), LitT("str", "m"), LitT("str", "g"), LitT("str", "foo-bar")>>)>>)>>, p[2])>>>> : p \in Parts(m)}
   \cup {<<Ref("I" \o tag, <<>>), <<Interface("B" \o tag, <<>>, p[2]), Interface("I" \o tag, <<>>, p[1]), Interface("I" \o tag, <<"B" \o tag>>, <<>>)>>>> : p \in Parts(m)}
+  \* two declarations of one interface, each with a parent of the same head name and different arguments
+  \cup {<<Ref("I" \o tag, <<>>), <<Interface("A" \o tag, <<>>, Append(p[1], Prop("xx", "ident", FALSE, Num))), Interface("B" \o tag, <<>>, Append(p[2], Prop("yy", "ident", FALSE, Num))),
+                                   InterfaceX("I" \o tag, <<Ref("Omit", <<Ref("A" \o tag, <<>>), LitT("str", "xx")>>)>>, <<>>),
+                                   InterfaceX("I" \o tag, <<Ref("Omit", <<Ref("B" \o tag, <<>>), LitT("str", "yy")>>)>>, <<>>)>>>> : p \in Parts(m)}
   \cup {<<InterT(<<TypeLit(p[1]), Ref("T" \o tag, <<>>)>>), <<Alias("T" \o tag, TypeLit(p[2]))>>>> : p \in Parts(m)}
   \cup {<<InterT(<<Ref("I" \o tag, <<>>), ParenT(TypeLit(p[2]))>>), <<Interface("I" \o tag, <<>>, p[1])>>>> : p \in Parts(m)}
 
